@@ -30,9 +30,11 @@ impl Stats {
         self.distinct.entry(prop).or_default().insert(key);
     }
     pub fn eval_only(&mut self, prop: &'static str) { *self.evals.entry(prop).or_insert(0) += 1; }
-    pub fn count(&mut self, name: &str) { *self.counters.entry(name.to_string()).or_insert(0) += 1; }
+    pub fn count(&mut self, name: &str) { if cfg!(miri) { return; } *self.counters.entry(name.to_string()).or_insert(0) += 1; }
+    pub fn countf(&mut self, a: std::fmt::Arguments) { if cfg!(miri) { return; } self.count(&a.to_string()); }
+    pub fn maxf(&mut self, a: std::fmt::Arguments, n: u64) { if cfg!(miri) { return; } self.max(&a.to_string(), n); }
     pub fn add(&mut self, name: &str, n: u64) { *self.counters.entry(name.to_string()).or_insert(0) += n; }
-    pub fn max(&mut self, name: &str, n: u64) { let e = self.maxima.entry(name.to_string()).or_insert(0); if n > *e { *e = n; } }
+    pub fn max(&mut self, name: &str, n: u64) { if cfg!(miri) { return; } let e = self.maxima.entry(name.to_string()).or_insert(0); if n > *e { *e = n; } }
     pub fn sample(&mut self, prop: &'static str, s: String) { let v = self.samples.entry(prop).or_default(); if v.len() < 6 { v.push(s); } }
 }
 
@@ -201,7 +203,10 @@ pub fn check_event(ev: &Event, st: &mut Stats, out: &mut Vec<Viol>) {
     for m in &post.g1 { v(out, "C07", "g1", format!("after {}: {}", op.to_text(), m)); }
     for m in &post.g2 { v(out, "C07", "g2", format!("after {}: {}", op.to_text(), m)); v(out, "C12", "g2", format!("after {}: {}", op.to_text(), m)); v(out, "C05", "g2", format!("after {}: {}", op.to_text(), m)); }
     for m in &post.g3 { v(out, "C07", "g3", format!("after {}: {}", op.to_text(), m)); v(out, "C04", "g3", format!("after {}: {}", op.to_text(), m)); }
+    for m in &post.g1 { if m.contains("key id occurs twice") { v(out, "C04", "dup-key", format!("after {}: {}", op.to_text(), m)); } }
     if !post.g1.is_empty() { return; }
+    // a forgotten iterator: C17 territory (handled by the engine); only the yields are judged here
+    if let Op::Iterate { kind, calls, forget: true } = op { check_iter(ev, *kind, calls, true, Some(post), st, out); return; }
     if post.table_at != pre.table_at { st.count("reallocations"); }
     st.max("max_len", post.len as u64);
     let sp = spec(ev);
@@ -209,7 +214,7 @@ pub fn check_event(ev: &Event, st: &mut Stats, out: &mut Vec<Viol>) {
     let post_ids = post.ids();
     let insert_target = match op { Op::Insert { id, .. } | Op::TryInsert { id, .. } => Some(*id), _ => None };
     // observed departures: ids of pre that are not in post (a replaced key stays present)
-    let dep: Vec<u32> = pre_ids.iter().filter(|i| !post_ids.contains(i)).cloned().collect();
+    let dep: Vec<u32> = pre_ids.iter().filter(|i| !post.has(**i)).cloned().collect();
     let pre_nonempty = !pre.ents.is_empty();
 
     // ------------------------------------------------------------ C01
@@ -235,8 +240,10 @@ pub fn check_event(ev: &Event, st: &mut Stats, out: &mut Vec<Viol>) {
         }
         if sp.may_evict && sp.evict_n >= 1 {
             // oldest first: key uids of the evicted run appear in the drop log in LRU order
-            let want: Vec<u64> = pre.ents.iter().filter(|e| sp.dep.contains(&e.id)).map(|e| e.kuid).collect();
-            let got: Vec<u64> = o.drops.iter().filter(|u| want.contains(u)).cloned().collect();
+            let depset: std::collections::HashSet<u32> = sp.dep.iter().cloned().collect();
+            let want: Vec<u64> = pre.ents.iter().filter(|e| depset.contains(&e.id)).map(|e| e.kuid).collect();
+            let wantset: std::collections::HashSet<u64> = want.iter().cloned().collect();
+            let got: Vec<u64> = o.drops.iter().filter(|u| wantset.contains(u)).cloned().collect();
             if dep == sp.dep && got != want { v(out, "C03", "drop-order", format!("{}: evicted keys were dropped in order {:?}, LRU order is {:?}", op.to_text(), got, want)); }
         }
         if sp.evict_n >= 2 { st.count("multi_evictions"); }
@@ -251,35 +258,35 @@ pub fn check_event(ev: &Event, st: &mut Stats, out: &mut Vec<Viol>) {
     {
         let present = tgt.and_then(|i| pre.find(i));
         let mut relevant = true;
-        let mut chk = |cond: bool, sig: &str, msg: String, out: &mut Vec<Viol>| { if !cond { v(out, "C04", sig, msg); } };
+        macro_rules! chk { ($cond:expr, $sig:expr, $msg:expr, $out:expr) => { if !($cond) { v($out, "C04", $sig, $msg); } } }
         match op {
             Op::Insert { id, .. } => {
                 if o.tag != "err_too_large" {
-                    chk(o.v == present.map(|e| e.vuid), "insert-ret", format!("{} returned previous value {:?}, the map held {:?}", op.to_text(), o.v, present.map(|e| e.vuid)), out);
+                    chk!(o.v == present.map(|e| e.vuid), "insert-ret", format!("{} returned previous value {:?}, the map held {:?}", op.to_text(), o.v, present.map(|e| e.vuid)), out);
                     let now = post.find(*id);
-                    chk(now.map(|e| (e.kuid, e.vuid)) == Some((o.in_k.unwrap_or(0), o.in_v.unwrap_or(0))), "insert-stored", format!("{}: afterwards the key maps to {:?}, inserted {:?}", op.to_text(), now.map(|e| (e.kuid, e.vuid)), (o.in_k, o.in_v)), out);
+                    chk!(now.map(|e| (e.kuid, e.vuid)) == Some((o.in_k.unwrap_or(0), o.in_v.unwrap_or(0))), "insert-stored", format!("{}: afterwards the key maps to {:?}, inserted {:?}", op.to_text(), now.map(|e| (e.kuid, e.vuid)), (o.in_k, o.in_v)), out);
                 }
             }
             Op::TryInsert { id, .. } => {
-                if o.tag == "ok" { let now = post.find(*id); chk(now.map(|e| (e.kuid, e.vuid)) == Some((o.in_k.unwrap_or(0), o.in_v.unwrap_or(0))), "insert-stored", format!("{}: afterwards the key maps to {:?}", op.to_text(), now.map(|e| (e.kuid, e.vuid))), out); }
+                if o.tag == "ok" { let now = post.find(*id); chk!(now.map(|e| (e.kuid, e.vuid)) == Some((o.in_k.unwrap_or(0), o.in_v.unwrap_or(0))), "insert-stored", format!("{}: afterwards the key maps to {:?}", op.to_text(), now.map(|e| (e.kuid, e.vuid))), out); }
             }
             Op::Get { .. } | Op::Peek { .. } => {
-                chk(o.v == present.map(|e| e.vuid) && (o.tag == "some") == present.is_some(), "lookup", format!("{} returned {:?}, the map holds {:?}", op.to_text(), o.v, present.map(|e| e.vuid)), out);
-                st.count(&format!("lookup_{}_{}_{}", op.kind(), if present.is_some() { "hit" } else { "miss" }, if matches!(op, Op::Get { owned: true, .. } | Op::Peek { owned: true, .. }) { "owned" } else { "borrowed" }));
+                chk!(o.v == present.map(|e| e.vuid) && (o.tag == "some") == present.is_some(), "lookup", format!("{} returned {:?}, the map holds {:?}", op.to_text(), o.v, present.map(|e| e.vuid)), out);
+                st.countf(format_args!("lookup_{}_{}_{}", op.kind(), if present.is_some() { "hit" } else { "miss" }, if matches!(op, Op::Get { owned: true, .. } | Op::Peek { owned: true, .. }) { "owned" } else { "borrowed" }));
             }
             Op::GetEntry { .. } | Op::PeekEntry { .. } => {
-                chk(o.v == present.map(|e| e.vuid) && o.k == present.map(|e| e.kuid), "lookup", format!("{} returned {:?}, the map holds {:?}", op.to_text(), (o.k, o.v), present.map(|e| (e.kuid, e.vuid))), out);
-                st.count(&format!("lookup_{}_{}_{}", op.kind(), if present.is_some() { "hit" } else { "miss" }, if matches!(op, Op::GetEntry { owned: true, .. } | Op::PeekEntry { owned: true, .. }) { "owned" } else { "borrowed" }));
+                chk!(o.v == present.map(|e| e.vuid) && o.k == present.map(|e| e.kuid), "lookup", format!("{} returned {:?}, the map holds {:?}", op.to_text(), (o.k, o.v), present.map(|e| (e.kuid, e.vuid))), out);
+                st.countf(format_args!("lookup_{}_{}_{}", op.kind(), if present.is_some() { "hit" } else { "miss" }, if matches!(op, Op::GetEntry { owned: true, .. } | Op::PeekEntry { owned: true, .. }) { "owned" } else { "borrowed" }));
             }
             Op::Contains { .. } => {
-                chk((o.tag == "true") == present.is_some(), "lookup", format!("{} returned {}, present = {}", op.to_text(), o.tag, present.is_some()), out);
-                st.count(&format!("lookup_contains_{}_{}", if present.is_some() { "hit" } else { "miss" }, if matches!(op, Op::Contains { owned: true, .. }) { "owned" } else { "borrowed" }));
+                chk!((o.tag == "true") == present.is_some(), "lookup", format!("{} returned {}, present = {}", op.to_text(), o.tag, present.is_some()), out);
+                st.countf(format_args!("lookup_contains_{}_{}", if present.is_some() { "hit" } else { "miss" }, if matches!(op, Op::Contains { owned: true, .. }) { "owned" } else { "borrowed" }));
             }
-            Op::Remove { .. } => chk(o.v == present.map(|e| e.vuid), "remove-ret", format!("{} returned {:?}, the map held {:?}", op.to_text(), o.v, present.map(|e| e.vuid)), out),
-            Op::RemoveEntry { .. } => chk(o.v == present.map(|e| e.vuid) && o.k == present.map(|e| e.kuid), "remove-ret", format!("{} returned {:?}, the map held {:?}", op.to_text(), (o.k, o.v), present.map(|e| (e.kuid, e.vuid))), out),
-            Op::RemoveLru => { let e = pre.ents.first(); chk((o.k, o.v) == (e.map(|e| e.kuid), e.map(|e| e.vuid)), "remove-ret", format!("remove_lru returned {:?}, the LRU entry was {:?}", (o.k, o.v), e.map(|e| (e.kuid, e.vuid))), out); }
-            Op::RemoveMru => { let e = pre.ents.last(); chk((o.k, o.v) == (e.map(|e| e.kuid), e.map(|e| e.vuid)), "remove-ret", format!("remove_mru returned {:?}, the MRU entry was {:?}", (o.k, o.v), e.map(|e| (e.kuid, e.vuid))), out); }
-            Op::Mutate { .. } => { if let Some(e) = present { chk(o.closure_saw.map(|s| s.0) == Some(e.vuid), "mutate-saw", format!("{}: the closure saw value {:?}, the map holds {}", op.to_text(), o.closure_saw, e.vuid), out); } }
+            Op::Remove { .. } => chk!(o.v == present.map(|e| e.vuid), "remove-ret", format!("{} returned {:?}, the map held {:?}", op.to_text(), o.v, present.map(|e| e.vuid)), out),
+            Op::RemoveEntry { .. } => chk!(o.v == present.map(|e| e.vuid) && o.k == present.map(|e| e.kuid), "remove-ret", format!("{} returned {:?}, the map held {:?}", op.to_text(), (o.k, o.v), present.map(|e| (e.kuid, e.vuid))), out),
+            Op::RemoveLru => { let e = pre.ents.first(); chk!((o.k, o.v) == (e.map(|e| e.kuid), e.map(|e| e.vuid)), "remove-ret", format!("remove_lru returned {:?}, the LRU entry was {:?}", (o.k, o.v), e.map(|e| (e.kuid, e.vuid))), out); }
+            Op::RemoveMru => { let e = pre.ents.last(); chk!((o.k, o.v) == (e.map(|e| e.kuid), e.map(|e| e.vuid)), "remove-ret", format!("remove_mru returned {:?}, the MRU entry was {:?}", (o.k, o.v), e.map(|e| (e.kuid, e.vuid))), out); }
+            Op::Mutate { .. } => { if let Some(e) = present { chk!(o.closure_saw.map(|s| s.0) == Some(e.vuid), "mutate-saw", format!("{}: the closure saw value {:?}, the map holds {}", op.to_text(), o.closure_saw, e.vuid), out); } }
             _ => { relevant = pre_nonempty; }
         }
         // persistence of every key the operation does not address
@@ -296,9 +303,9 @@ pub fn check_event(ev: &Event, st: &mut Stats, out: &mut Vec<Viol>) {
 
     // ------------------------------------------------------------ C05
     if pre_nonempty {
-        let mut want: Vec<u32> = pre_ids.iter().filter(|i| post_ids.contains(i)).cloned().collect();
-        if let Some(p) = sp.promoted { want.retain(|i| *i != p); if post_ids.contains(&p) { want.push(p); } }
-        let got: Vec<u32> = post_ids.iter().filter(|i| pre_ids.contains(i) || Some(**i) == sp.promoted).cloned().collect();
+        let mut want: Vec<u32> = pre_ids.iter().filter(|i| post.has(**i)).cloned().collect();
+        if let Some(p) = sp.promoted { want.retain(|i| *i != p); if post.has(p) { want.push(p); } }
+        let got: Vec<u32> = post_ids.iter().filter(|i| pre.has(**i) || Some(**i) == sp.promoted).cloned().collect();
         st.eval("C05", crate::rng::mix(&[kind, pc, (post.table_at != pre.table_at) as u64, len_class(pre.len), sp.promoted.is_some() as u64, n_class(dep.len())]));
         if got != want { v(out, "C05", "order", format!("{}: recency order afterwards {:?}, expected {:?} (before {:?})", op.to_text(), got, want, pre_ids)); }
         match op {
@@ -307,7 +314,7 @@ pub fn check_event(ev: &Event, st: &mut Stats, out: &mut Vec<Viol>) {
             Op::Debug => { if let Some(d) = &o.debug { let parsed = parse_debug(d); let walk: Vec<(u32, u64, u64)> = pre.ents.iter().map(|e| (e.id, e.kuid, e.vuid)).collect(); if parsed != Some(walk.clone()) { v(out, "C05", "debug-order", format!("Debug output {} does not list the entries in recency order {:?}", d, walk)); } st.count("debug_compared"); } }
             _ => {}
         }
-        if sp.promoted.is_some() { st.count(&format!("promote_{}_pos{}", op.kind(), pc)); }
+        if sp.promoted.is_some() { st.countf(format_args!("promote_{}_pos{}", op.kind(), pc)); }
         if post.table_at != pre.table_at && pre.len >= 10 { st.count("order_checked_after_realloc_len10"); }
     }
     // address identity of returned references (C07: the traversed entry is the very entry a lookup finds)
@@ -323,7 +330,7 @@ pub fn check_event(ev: &Event, st: &mut Stats, out: &mut Vec<Viol>) {
         let want = if size > max { "err_too_large" } else if !is_try { if occupied { "ok_some" } else { "ok_none" } } else if size > free { "err_would_eject" } else if occupied { "err_occupied" } else { "ok" };
         let conds = (size > max) as u64 | ((size > free) as u64) << 1 | (occupied as u64) << 2;
         st.eval("C10", crate::rng::mix(&[is_try as u64, conds, (size == free) as u64 | ((size == free + 1) as u64) << 1 | ((size == max) as u64) << 2 | ((size == max + 1) as u64) << 3, len_class(pre.len), (pre.cur == pre.max) as u64]));
-        st.count(&format!("c10_{}_{}", if is_try { "try" } else { "ins" }, want));
+        st.countf(format_args!("c10_{}_{}", if is_try { "try" } else { "ins" }, want));
         if conds.count_ones() >= 2 { st.count("c10_several_conditions"); }
         if size == free { st.count("c10_size_eq_free"); } if size == free + 1 { st.count("c10_size_eq_free_plus_1"); }
         if size == max { st.count("c10_size_eq_max"); } if size == max + 1 { st.count("c10_size_eq_max_plus_1"); }
@@ -358,7 +365,7 @@ pub fn check_event(ev: &Event, st: &mut Stats, out: &mut Vec<Viol>) {
                 let max = pre.max as u128;
                 let class = if new_size > max { 4 } else if new_size > old_size { if sp.evict_n > 0 { 3 } else { 2 } } else if new_size == old_size { 1 } else { 0 };
                 st.eval("C11", crate::rng::mix(&[1, class, pc, n_class(sp.evict_n), sp.exact_fit as u64, len_class(pre.len)]));
-                st.count(&format!("c11_class{}_pos{}", class, pc));
+                st.countf(format_args!("c11_class{}_pos{}", class, pc));
                 if !o.closure_ran { v(out, "C11", "not-run", format!("{}: closure not called for a present key", op.to_text())); }
                 if o.closure_saw != Some((e.vuid, e.vheap, e.stamp)) { v(out, "C11", "saw", format!("{}: closure saw {:?}, stored value is {:?}", op.to_text(), o.closure_saw, (e.vuid, e.vheap, e.stamp))); }
                 if new_size > max {
@@ -380,7 +387,8 @@ pub fn check_event(ev: &Event, st: &mut Stats, out: &mut Vec<Viol>) {
                         }
                         _ => v(out, "C11", "not-mru", format!("{}: mutated entry is not most-recently-used afterwards (order {:?})", op.to_text(), post_ids)),
                     }
-                    let want: Vec<u32> = pre_ids.iter().filter(|i| **i != *id && !sp.dep.contains(i)).cloned().chain(std::iter::once(*id)).collect();
+                    let depset: std::collections::HashSet<u32> = sp.dep.iter().cloned().collect();
+                    let want: Vec<u32> = pre_ids.iter().filter(|i| **i != *id && !depset.contains(i)).cloned().chain(std::iter::once(*id)).collect();
                     if post_ids != want { v(out, "C11", "evictions", format!("{}: afterwards {:?}, expected {:?} (evict only as far as needed)", op.to_text(), post_ids, want)); }
                     for x in &post.ents { if x.id != *id { if let Some(p) = pre.find(x.id) { if (p.rec, p.vheap, p.vuid) != (x.rec, x.vheap, x.vuid) { v(out, "C11", "others-touched", format!("{}: entry {} changed", op.to_text(), x.id)); } } } }
                 }
@@ -406,7 +414,7 @@ pub fn check_event(ev: &Event, st: &mut Stats, out: &mut Vec<Viol>) {
                 if ok {
                     if (post.cap as u128) < pre.len as u128 + *n as u128 { v(out, "C13", "reserve-bound", format!("{}: capacity {} < len {} + additional {}", op.to_text(), post.cap, pre.len, n)); }
                 } else {
-                    st.count(&format!("c13_try_reserve_{}", o.tag));
+                    st.countf(format_args!("c13_try_reserve_{}", o.tag));
                     if post.fingerprint != pre.fingerprint { v(out, "C13", "failed-reserve-changed", format!("{} failed with {} but the cache is not exactly as it was", op.to_text(), o.tag)); }
                 }
                 if o.alloc_failed > 0 { st.count("c13_alloc_failures_injected"); if o.tag == "ok" { st.count("c13_alloc_failure_survived"); } }
@@ -483,7 +491,7 @@ pub fn check_event(ev: &Event, st: &mut Stats, out: &mut Vec<Viol>) {
         else if rebuilt && may_rebuild { bound += pre.len.max(post.len) as u64; }
         let zero = matches!(op, Op::Iterate { .. } | Op::Clear | Op::PeekLru | Op::PeekMru);
         st.eval("C20", crate::rng::mix(&[kind, len_class(pre.len), n_class(dep.len()), rebuilt as u64, h.min(3)]));
-        st.max(&format!("c20_max_hashes_minus_departures_{}{}", op.kind(), if rebuilt && (may_rebuild) || matches!(op, Op::CloneCache) { "_rebuild" } else { "" }), h.saturating_sub(dep.len() as u64).saturating_sub(if rebuilt && may_rebuild || matches!(op, Op::CloneCache) { pre.len.max(post.len) as u64 } else { 0 }));
+        st.maxf(format_args!("c20_max_hashes_minus_departures_{}{}", op.kind(), if rebuilt && (may_rebuild) || matches!(op, Op::CloneCache) { "_rebuild" } else { "" }), h.saturating_sub(dep.len() as u64).saturating_sub(if rebuilt && may_rebuild || matches!(op, Op::CloneCache) { pre.len.max(post.len) as u64 } else { 0 }));
         if zero && h != 0 { v(out, "C20", "hash-free", format!("{} computed {} key hashes; it must hash nothing", op.to_text(), h)); }
         else if h > bound { v(out, "C20", "bound", format!("{} computed {} key hashes with {} entries held, {} leaving, table rebuilt: {}; bound {}", op.to_text(), h, pre.len, dep.len(), rebuilt, bound)); }
         if rebuilt && may_rebuild { st.count("c20_rebuilds"); }
